@@ -12,8 +12,7 @@ verus! {
 //@include shims/mem.rs
 pub mod io2 {}
 pub mod spec {
-//@item src/spec.rs | const LOCAL_FILE_HEADER_SIGNATURE
-//@item src/spec.rs | const CENTRAL_DIRECTORY_HEADER_SIGNATURE
+//@include common/spec_consts.rs
 }
 pub open spec fn sig_at(d: Seq<u8>, p: int, sig: u32) -> bool { inb(d, p, 4) && de32(at(d, p, 4)) == sig }
 //@include spec/appnote_headers.rs
